@@ -34,6 +34,30 @@ def run_oracle(ctx, plan_override=None, part="default"):
     ctx.candidates = ctx.keep_confirmed(ctx.candidates, lambda c: (c["record"].get("kind") != "full") or conf(c))
 
 
+def run_directed(ctx):
+    """Directed documents (FullDirected.tla): what matters in them is a count - runs of 255 / 256 / 257 fence characters, backticks,
+    delimiters, spaces; ten-digit markers; seven '#'. The harness writes them, TLC evaluates ModelOf on each, the harness compares
+    the real parser with the model's complete expectation exactly as for the generated documents."""
+    import os
+    ctx.build_harness()
+    path = os.path.join(ctx.specdir, "directed.ndjson")
+    rc, res, _ = ctx.harness(["full", "dirgen", path])
+    n = (res.get("extra") or {}).get("directed", 0)
+    cfg_text = "INIT Init\nNEXT Next\nCHECK_DEADLOCK FALSE\nCONSTANTS\n  File = \"directed.ndjson\"\n"
+    r = ctx.tlc("FullDirected", cfg_text, name="FullDirected", workers=16, timeout=3000, cont=True, xss="1g")
+    import vlib
+    vlib.GOENV["VERIF_FULL_PART"] = "default"
+    rc, res, _ = ctx.harness(["full", r["out"]], timeout=3000)
+    if res.get("evaluations", 0) != n or not n:
+        raise vlib.Infra("FullDirected.tla evaluated %s of %s directed documents" % (res.get("evaluations"), n))
+    before = list(ctx.candidates)
+    ctx.absorb(res)
+    new = [c for c in ctx.candidates if c not in before]
+    ctx.extra["directed_documents_agree_with_model"] = n - len(new)
+    conf = confirm_with(ctx, "full")
+    ctx.candidates = before + ctx.keep_confirmed(new, conf)
+
+
 def validate_model(ctx):
     """The model itself is validated against the 652 examples of the CommonMark 0.30 specification: FullTrace.tla evaluates
     Model(markdown) for every example and the harness compares the HTML with the example's own. An example the model gets
